@@ -452,4 +452,53 @@ example : installOf (resolve cfgV ["r".toList, "a".toList, "p".toList] []) = som
   simp only [SV, List.mem_cons, List.not_mem_nil, or_false] at hp
   rcases hp with rfl | rfl | rfl | rfl <;> exact ⟨head_ne_bang_of (by decide), by decide⟩
 
+/-! ### the provider order of the driver -/
+
+theorem mem_insertName (x y : Text) : ∀ (l : List Text), y ∈ insertName x l ↔ y = x ∨ y ∈ l := by
+  intro l
+  induction l with
+  | nil => simp [insertName]
+  | cons z zs ih =>
+    unfold insertName
+    split
+    · simp
+    · split
+      · next h => subst h; simp
+      · simp only [List.mem_cons, ih]
+        constructor
+        · rintro (h | h | h)
+          · exact Or.inr (Or.inl h)
+          · exact Or.inl h
+          · exact Or.inr (Or.inr h)
+        · rintro (h | h | h)
+          · exact Or.inr (Or.inl h)
+          · exact Or.inl h
+          · exact Or.inr (Or.inr h)
+
+theorem mem_sortNames (y : Text) : ∀ (l : List Text), y ∈ sortNames l ↔ y ∈ l := by
+  intro l
+  induction l with
+  | nil => simp [sortNames]
+  | cons x xs ih =>
+    have : sortNames (x :: xs) = insertName x (sortNames xs) := rfl
+    rw [this, mem_insertName, ih]
+    simp
+
+/-- the driver's provider order (`cfgOf`: `ownNames`) knows every package of the universe -/
+theorem ownNames_knows (u : Universe) (p : Pkg) (hp : p ∈ u.all) : p.name ∈ ownNames u := by
+  unfold ownNames
+  rw [mem_sortNames]
+  exact List.mem_map.mpr ⟨p, hp, rfl⟩
+
+/-- T `relock_unlisted_exact_provides_driver_partial`: `relock_unlisted_exact_provides_partial` for the configuration the
+driver evaluates (`order = ownNames`): the only hypotheses left besides `unlisted` are distinct ids, the read-back of
+the lock entries (characters) and `hypV` -/
+theorem relock_unlisted_exact_provides_driver_partial (c : Cfg) (w : List Text) (dq0 : List Nat) (r : Resolution)
+    (hc : c.order = ownNames c.u) (hres : resolve c w dq0 = .ok r) (hids : C02.IdsDistinct c.u)
+    (hread : EntriesReadBack w r.install) (hv : hypV r.install)
+    (hcls : relockClass c.u w r.install = "unlisted") :
+    ∃ r', resolve c (lockOf w r.install) [] = .ok r' ∧ sameMembers r'.install r.install :=
+  relock_unlisted_exact_provides_partial c w dq0 r hres hids hread
+    (fun q hq => by rw [hc]; exact ownNames_knows c.u q (C02.resolve_subset c w dq0 r hres q hq)) hv hcls
+
 end Apko.C09
